@@ -74,8 +74,9 @@ def gen_if_only(rng, lang, depth, in_async):
 
 
 def gen_file(rng, lang: str, idx: int, common: bool = False) -> dict:
-    wraps = {"py": ["plain", "plain", "method", "async"], "ts": ["plain", "method", "arrow", "async"],
-             "rs": ["plain", "plain", "method", "async"]}[lang]
+    wraps = {"py": ["plain", "plain", "method", "async", "underIf", "inner"],
+             "ts": ["plain", "method", "arrow", "async", "funcExpr", "generator", "underIf", "inner"],
+             "rs": ["plain", "plain", "method", "async", "underIf", "inner"]}[lang]
     fns = []
     for k in range(rng.choice([1, 2, 2, 3, 4, 6])):
         w = "plain" if common else rng.choice(wraps)
@@ -427,7 +428,7 @@ def project_mode(rng, n: int, res: core.Result):
 
 def run(tier: str, seed: int, st: core.ProofStatus) -> core.Result:
     res = core.Result()
-    res.rule = ("seeded random control skeletons (1-6 functions per file, plain/method/arrow/async wrappers, all "
+    res.rule = ("seeded random control skeletons (1-6 functions per file; plain / method / arrow / async / function-expression / generator forms, also declared under a compound statement, in a namespace / module, an inner class or a trait; all "
                 "constructs of the language, depth <= 9) rendered by the Lean model; limits 1..depth+2 (quick: the flip points of every function); "
                 "a case is non-trivial when some function has documented depth >= 2; distinct = distinct skeleton lists")
     rng = core.sub_rng(seed, PROP, tier)
